@@ -75,6 +75,15 @@ def check(chk: Check) -> None:
                 loop.append('the token request is not inside a loop')
         ttype, tval = ('attr', tk, 'type'), ('attr', tk, 'value')
         assumed = [(c, v) for c, v, _ in p.assumptions]
+        # what the PLY lexer hands out is a LexToken or None: `case LexToken(...)` / isinstance(t, LexToken) decides nothing
+        # once None is excluded, and a path on which a non-None token is not a LexToken does not exist
+        def _is_lextoken_test(c):
+            return isinstance(c, tuple) and c[:2] == ('pcall', 'isinstance') and len(c[2]) == 2 and c[2][0] == tk \
+                and c[2][1] in (('ref', 'ext', 'smartquery.ply.lex.LexToken'),)
+        if any(_is_lextoken_test(c) and not v for c, v in assumed) and not any(
+                (c == ('cmp', 'is', tk, ('const', None)) and v) or (c == tk and not v) for c, v in assumed):
+            continue
+        assumed = [(c, v) for c, v in assumed if not _is_lextoken_test(c)]
         is_none = [v for c, v in assumed if c == ('cmp', 'is', tk, ('const', None))] + \
                   [not v for c, v in assumed if c == tk]
         typed = [(c, v) for c, v in assumed if om.mentions(c, ttype)]
